@@ -46,7 +46,7 @@ Fixpoint as_ccrit (t : tree) {struct t} : option ccrit :=
   end.
 
 Definition as_target (z : Z) : option target :=
-  match z with 0 => Some TgC | 1 => Some TgAlias | 2 => Some TgSub | _ => None end%Z.
+  match z with 0 => Some TgC | 1 => Some TgAlias | 2 => Some TgSub | 3 => Some TgSubOn | _ => None end%Z.
 Definition as_colmode (z : Z) : option colmode :=
   match z with 0 => Some BothEnt | 1 => Some EntCol | 2 => Some ColEnt | _ => None end%Z.
 
